@@ -15,6 +15,28 @@ import tlaparse
 from drive_poly import run_jobs
 
 
+def chain_events(path, maxlimit):
+    import kdriver  # noqa: F401
+    from kingdon.codegen import AdditionChains, power_supply
+
+    class E:
+        def __init__(self, e):
+            self.e = e
+
+        def __mul__(self, o):
+            return E(self.e + o.e)
+    with open(path, 'w') as f:
+        for n in range(1, maxlimit + 1):
+            ev = {'id': str(n), 'limit': n, 'raised': '', 'chains': [], 'supply_int': [], 'supply_range': []}
+            try:
+                ev['chains'] = [[int(v), [int(x) for x in ch]] for v, ch in AdditionChains(n).minimal_chains.items()]
+                ev['supply_int'] = [p.e for p in power_supply(E(1), n)]
+                ev['supply_range'] = [p.e for p in power_supply(E(1), tuple(range(1, n + 1)))]
+            except Exception as e:   # noqa: BLE001
+                ev['raised'] = type(e).__name__
+            f.write(json.dumps(ev) + '\n')
+
+
 def run(ctx):
     rng, q = ctx.rng, ctx.quick
     dump = os.path.join(ctx.work, 'poly.dump')
@@ -38,6 +60,16 @@ def run(ctx):
     for k in range(16):
         jobs.append({'states': [], 'seed': ctx.seed + 7000 + k, 'out': os.path.join(tdir, f'w{k}.ndjson'), 'prefix': f'w{k}',
                      'walks': 6 if q else 60, 'steps': 30})
+    # AdditionChains / power_supply (every integer power goes through them): model checking of the loop machine,
+    # and the chains the real code computes validated by TLC
+    r2 = ctx.mc('mc/MC_AdditionChains.tla', 'mc/MC_AdditionChains.cfg', 'AdditionChains loop machine for limits 1..40: termination, valid / complete / prefix-closed chains, power_supply exponents')
+    if not r2['ok']:
+        ctx.report(f"AdditionChains violates {r2['violated']}", {'kind': 'spec', 'violated': ','.join(r2['violated'])}, {'tail': r2['out'][-2000:]})
+    cf = os.path.join(tdir, 'chains.ndjson')
+    chain_events(cf, 48 if q else 128)
+    crej = ctx.validate('TraceChains.tla', 'TraceChains.cfg', [cf], header_lines=0)
+    for f, (eid, clause) in crej:
+        ctx.report(f'AdditionChains / power_supply for limit {eid}: {clause}', {'kind': 'chains', 'clause': clause}, {'limit': eid, 'spec': 'TraceChains.tla'})
     res = run_jobs(jobs)
     files = [r_['out'] for r_ in res if r_['events']]
     rej = ctx.validate('TracePolynomial.tla', 'TracePolynomial.cfg', files, header_lines=0)
